@@ -12,7 +12,9 @@ use std::task::{Context, Poll, Waker};
 use tokio::io::{AsyncRead, AsyncReadExt, AsyncWrite, AsyncWriteExt, ReadBuf};
 
 #[derive(Clone, Debug)]
-pub enum W { Pending, Accept(usize) }
+pub enum W { Pending, Accept(usize),
+    /// the transport refuses this poll with a transient error and takes nothing (the write ends there; a later write goes on)
+    Fail }
 #[derive(Clone, Debug)]
 pub enum R { Pending, Data(Vec<u8>) }
 
@@ -29,6 +31,7 @@ impl AsyncWrite for Script {
         match s.wsched.pop_front() {
             None | Some(W::Pending) => Poll::Pending,
             Some(W::Accept(n)) => { let k = n.min(buf.len()); s.accepted.extend_from_slice(&buf[..k]); Poll::Ready(Ok(k)) }
+            Some(W::Fail) => { s.wsched.clear(); Poll::Ready(Err(std::io::Error::from(std::io::ErrorKind::Interrupted))) }
         }
     }
     fn poll_flush(self: Pin<&mut Self>, _cx: &mut Context<'_>) -> Poll<std::io::Result<()>> { Poll::Ready(Ok(())) }
@@ -90,6 +93,8 @@ fn gen_wsched(rng: &mut Rng, len: usize) -> Vec<W> {
         left -= n as i64;
     }
     if rng.chance(1, 10) { v.insert(rng.below(v.len() as u64 + 1) as usize, W::Accept(0)); }
+    // one write in eight is cut short by a transient transport error (nothing taken on that poll)
+    if rng.chance(1, 8) { v.truncate(rng.below(v.len() as u64 + 1) as usize); v.push(W::Fail); }
     v
 }
 
@@ -127,7 +132,7 @@ fn run_session(ops: &[Op]) -> (String, String, Option<String>) {
                 if accepted != expect {
                     why.push(format!("write {}B under {:?}: transport accepted {} but one continuous stream of the {} bytes reported written is {}", plain.len(), sch, hex(&accepted), written, hex(&expect)));
                 }
-                req.push(format!("w {} {}", hex(plain), sch.iter().map(|w| match w { W::Pending => "p".to_string(), W::Accept(n) => format!("a{n}") }).collect::<Vec<_>>().join(" ")).trim_end().to_string());
+                req.push(format!("w {} {}", hex(plain), sch.iter().map(|w| match w { W::Pending => "p".to_string(), W::Accept(n) => format!("a{n}"), W::Fail => "e".to_string() }).collect::<Vec<_>>().join(" ")).trim_end().to_string());
                 obs.push(format!("w:{written}:{}", hex(&accepted)));
             }
             Op::Shutdown => {
@@ -153,7 +158,7 @@ fn run_session(ops: &[Op]) -> (String, String, Option<String>) {
                     why.push(format!("vectored write of {} slices ({}B): transport accepted {} but one continuous stream of the {} bytes reported written is {}", parts.len(), plain.len(), hex(&accepted), written, hex(&expect)));
                 }
                 // one byte per poll: the same transcript as a plain write under this schedule
-                req.push(format!("w {} {}", hex(&plain), sch.iter().map(|w| match w { W::Pending => "p".to_string(), W::Accept(n) => format!("a{n}") }).collect::<Vec<_>>().join(" ")).trim_end().to_string());
+                req.push(format!("w {} {}", hex(&plain), sch.iter().map(|w| match w { W::Pending => "p".to_string(), W::Accept(n) => format!("a{n}"), W::Fail => "e".to_string() }).collect::<Vec<_>>().join(" ")).trim_end().to_string());
                 obs.push(format!("w:{written}:{}", hex(&accepted)));
             }
             Op::Read(sch, exact) => {
@@ -224,7 +229,7 @@ fn parse_session(line: &str) -> Option<Vec<Op>> {
     let mut ops = vec![];
     for op in t[1..].split(|x| *x == "|") {
         match op.first()? {
-            &"w" => ops.push(Op::Write(unhex(op[1])?, op[2..].iter().map(|x| if *x == "p" { Some(W::Pending) } else { x.strip_prefix('a')?.parse().ok().map(W::Accept) }).collect::<Option<Vec<_>>>()?)),
+            &"w" => ops.push(Op::Write(unhex(op[1])?, op[2..].iter().map(|x| if *x == "p" { Some(W::Pending) } else if *x == "e" { Some(W::Fail) } else { x.strip_prefix('a')?.parse().ok().map(W::Accept) }).collect::<Option<Vec<_>>>()?)),
             &"s" => ops.push(Op::Switch(unhex(op[1])?)),
             &"h" => ops.push(Op::Shutdown),
             &"r" => ops.push(Op::Read(op[1..].iter().map(|x| if *x == "p" { Some(R::Pending) } else { unhex(x).map(R::Data) }).collect::<Option<Vec<_>>>()?, true)),
